@@ -447,16 +447,16 @@ func (oracleC18) Step(x *OCtx, t *Trans) []Violation {
 	provListed := map[string]bool{}
 	for _, e := range t.Res.Events {
 		switch e.Type {
-		case "new_batch_request":
+		case st.EventTypeNewBatchRequest:
 			var arr []map[string]interface{}
-			if err := json.Unmarshal([]byte(e.Attrs["requests"]), &arr); err == nil {
-				evByCtx[strings.ToUpper(e.Attrs["request_context_id"])] = arr
+			if err := json.Unmarshal([]byte(e.Attrs[st.AttributeKeyRequests]), &arr); err == nil {
+				evByCtx[strings.ToUpper(e.Attrs[st.AttributeKeyRequestContextID])] = arr
 			}
-		case "new_batch_request_provider":
+		case st.EventTypeNewBatchRequestProvider:
 			var ids []string
-			if err := json.Unmarshal([]byte(e.Attrs["requests"]), &ids); err == nil {
+			if err := json.Unmarshal([]byte(e.Attrs[st.AttributeKeyRequests]), &ids); err == nil {
 				for _, id := range ids {
-					provListed[strings.ToUpper(id)+"|"+e.Attrs["service_name"]+"|"+e.Attrs["provider"]] = true
+					provListed[strings.ToUpper(id)+"|"+e.Attrs[st.AttributeKeyServiceName]+"|"+e.Attrs[st.AttributeKeyProvider]] = true
 				}
 			}
 		}
